@@ -8,6 +8,7 @@ import (
 	"os"
 	"os/exec"
 	"path/filepath"
+	"runtime"
 	"sort"
 	"strconv"
 	"strings"
@@ -30,6 +31,7 @@ func c18Child(args []string) {
 	}
 	src, target := args[0], args[1]
 	limit, _ := strconv.Atoi(args[2])
+	runtime.LockOSThread() // all file system calls of the save come from one thread (system-call crash points count per thread)
 	s, err := storage.NewJSONFileStorage(src)
 	if err != nil {
 		fmt.Fprintln(os.Stderr, "load:", err)
@@ -333,6 +335,84 @@ func runC18(c *Ctx) error {
 			c.Sample(map[string]any{"history": shape, "steps": len(steps)})
 		}
 	}
+	// ---------- crash points between system calls ----------
+	// The save runs in a child process under strace; for every system call that touches the state
+	// file or its temporary file (open, write, sync, close, rename, unlink, ...) and every k, the
+	// child is killed on entering the k-th such call.  A previous, non-empty state is in place: the
+	// next start must find that state or the new one.
+	for sc, nsc := 0, c.Pick(2, 5); sc < nsc; sc++ {
+		dir := filepath.Join(base, fmt.Sprintf("k%d", sc))
+		_ = os.MkdirAll(dir, 0o700)
+		target := filepath.Join(dir, "state.json")
+		tmp := target + ".tmp"
+		prev := c18GenState(c, 1+c.Rng.IntN(4), ids)
+		next := c18GenState(c, []int{0, 1, 3, 8}[c.Rng.IntN(4)], ids)
+		prevData, _, err := serialise(prev, dir)
+		if err != nil {
+			return err
+		}
+		_, src, err := serialise(next, dir)
+		if err != nil {
+			return err
+		}
+		wantPrev, wantNext := canonJSON(prev), canonJSON(next)
+		calls := []string{"openat", "write", "pwrite64", "fsync", "fdatasync", "close", "rename", "renameat", "renameat2", "unlink", "unlinkat",
+			"ftruncate", "fchmod", "fchmodat", "linkat", "newfstatat", "fstat", "fcntl", "lseek", "read"}
+		unavailable := false
+		points := 0
+	calls:
+		for _, call := range calls {
+			for k := 1; k <= 24; k++ {
+				_ = os.Remove(tmp)
+				if err := os.WriteFile(target, prevData, 0o600); err != nil {
+					return err
+				}
+				cmd := exec.Command("strace", "-f", "-qq", "-o", "/dev/null", "-P", target, "-P", tmp,
+					"-e", fmt.Sprintf("inject=%s:signal=SIGKILL:when=%d", call, k), self, "c18child", src, target, "-1")
+				out, rerr := cmd.CombinedOutput()
+				c.Eval()
+				killed := false
+				if rerr != nil {
+					if ee, ok := rerr.(*exec.ExitError); ok {
+						if ws, ok := ee.Sys().(syscall.WaitStatus); ok && (ws.Signaled() || ws.ExitStatus() == 137) {
+							killed = true
+						}
+					}
+					if !killed {
+						// strace is missing, ptrace is not permitted, or the child failed on its own
+						c.Note("system-call crash points not explored (%v: %s)", rerr, strings.TrimSpace(string(out)))
+						unavailable = true
+						break calls
+					}
+				}
+				ld, lerr := storage.NewJSONFileStorage(target)
+				rep := map[string]any{"system_call": call, "k": k, "killed": killed, "state_file": fileExists(target), "temporary_file": fileExists(tmp)}
+				if lerr != nil {
+					c.Violate(fmt.Sprintf("after a save killed on entering %s #%d the router refuses to start: %v", call, k, lerr), "refuses-to-start-syscall", rep)
+				} else {
+					got := canonJSON(ld.VerifContent())
+					if got != wantPrev && got != wantNext {
+						c.Violate(fmt.Sprintf("after a save killed on entering %s #%d (state file present: %v, temporary file present: %v) the next start finds neither the previous nor the new state", call, k, fileExists(target), fileExists(tmp)), "lost-state-syscall", rep)
+					}
+					if !killed && got != wantNext {
+						c.Violate("a completed save and reload did not preserve the state", "roundtrip", rep)
+					}
+				}
+				if !killed {
+					break // fewer than k such calls: next system call
+				}
+				points++
+				c.Count("crash-point:" + call)
+			}
+		}
+		if unavailable {
+			c.Count("crash-points-between-system-calls:unavailable")
+			break
+		}
+		c.CountN("crash-points-between-system-calls", points)
+		c.NonTrivial(fmt.Sprintf("syscall-crash-points/%d", points))
+	}
+
 	// ---------- sessions: load, use (look routers up, save, delete), stop, reload ----------
 	// what the storage holds when it stops is what the next start loads — every router with its
 	// timestamps (a look-up stamps UsedAt) and every mapping
